@@ -14,7 +14,9 @@ import numpy as np
 RULE = ("operation sequences of 1..5 filters (all 8 registered filters + custom_maze_filter, positional/keyword/default "
         "arguments, boundary parameters taken from the data: min = median/max/max+1 length, percentile 0/50/100/ties, "
         "max_count 0/len/len+3/negative, thresholds None/0/1/2/5; custom filters followed by further filters, collection "
-        "repeated with inplace=False on an already collected dataset) over hand-built datasets of 0..12 SolvedMaze objects on "
+        "repeated with inplace=False on an already collected dataset; in about one sequence in six a planted history "
+        "custom_maze_filter [-> custom_maze_filter] -> collect_generation_meta in place, so that an in-place collection on a "
+        "RESULT is judged against every EARLIER dataset of the history) over hand-built datasets of 0..12 SolvedMaze objects on "
         "2x2..4x4 (and non-square / mixed-shape) grids with planted exact duplicates, near duplicates (one flipped connection, "
         "one changed solution coordinate), the same object twice, all-equal lengths, real and fabricated generation_meta "
         "(missing / uncollectable values included); plus config-driven runs (generate + _apply_filters_from_config and the "
@@ -31,10 +33,11 @@ TRUSTED = ["harness/translate_filters.py (ast) regenerates the filter table (nam
            "the encoder `_enc_meta` classifies metadata values by Python type exactly as collect_generation_meta's isinstance chain does",
            "numpy's percentile / array comparison, json (inside deepcopy) are external parameters"]
 
-# keys of two defects found with this check and repaired in /repo (known_findings.txt: `fixed: property=C08 260593d / 9817574`);
+# keys of three defects found with this check and repaired in /repo (known_findings.txt: `fixed: property=C08 …`);
 # the scenarios stay in the generator and the oracle names them again should a repair be reverted
 KNOWN_KEY_CUSTOM = "custom-filter-record-without-args"
 KNOWN_KEY_COLLECT = "collect-noop-returns-input"
+KNOWN_KEY_SHARE = "custom-filter-shares-mazes"
 
 # ----------------------------------------------------------------------------------------------------------------
 # encoding of real objects for the model / for comparison
@@ -422,26 +425,39 @@ def _oracle_step(ctx, case, step, op, snap, others, res, err):
             got_idx = _match_indices(out_fps, snap["fps_nometa"])
             viol(f"result mazes are not the documented selection: expected input positions {keep}, got {got_idx if got_idx is not None else 'mazes that are no subsequence of the input'}")
             return
-    # ---- input untouched
+    # ---- input untouched: EVERY dataset of the history (the input and all earlier ones) except the one dataset that is the
+    # target of a documented in-place collection keeps its maze list, the contents of its mazes (generation_meta
+    # included), its collected metadata and its configuration
     for k, o in enumerate(others):
         d = o["obj"]
         is_input = o is snap
+        is_target = inplace and is_input
+        who = "the input" if is_input else f"an earlier dataset (#{k} of the history, {len(o['maze_ids'])} mazes)"
         if [id(m) for m in d.mazes] != o["maze_ids"] or len(d) != len(o["maze_ids"]):
-            viol(f"the maze list of {'the input' if is_input else 'an earlier'} dataset changed"); return
+            viol(f"the maze list of {who} changed"); return
         if [_fp(m, False) for m in d.mazes] != o["fps_nometa"]:
-            viol(f"mazes of {'the input' if is_input else 'an earlier'} dataset were modified"); return
-        if not inplace:
+            viol(f"mazes of {who} were modified"); return
+        if not is_target:
             if [_fp(m) for m in d.mazes] != o["fps"]:
-                viol(f"generation_meta of mazes of {'the input' if is_input else 'an earlier'} dataset changed although no in-place collection ran"); return
+                if inplace:
+                    n_shared = len(set(o["maze_ids"]) & set(snap["maze_ids"]))
+                    n_lost = sum(1 for m, f in zip(d.mazes, o["fps"]) if _fp(m) != f)
+                    viol(f"in-place metadata collection on a result changed generation_meta of {n_lost} mazes of {who}, which is not its target"
+                         + (f": the target shares {n_shared} maze objects with it (custom_maze_filter returned the input's maze objects instead of copies)" if n_shared else ""),
+                         key=KNOWN_KEY_SHARE if n_shared else "unlisted")
+                else:
+                    viol(f"generation_meta of mazes of {who} changed although no in-place collection ran")
+                return
             if _canon_gmc_real(d.generation_metadata_collected) != o["gmc"]:
-                viol("collected metadata of an existing dataset changed"); return
+                viol(f"collected metadata of {who} changed"); return
         if d.cfg is not o["cfg"]:
             viol("the config object of an existing dataset was replaced"); return
-        touched_ok = inplace and (d.cfg is snap["cfg"])
-        if not touched_ok:
+        if not is_target:
             now = json.dumps([_enc_rec(r) for r in d.cfg.applied_filters])
             if now != o["applied"] or int(d.cfg.n_mazes) != o["n_mazes"]:
-                viol(f"the configuration of {'the input' if is_input else 'an earlier'} dataset changed: applied_filters {o['applied']} -> {now}, n_mazes {o['n_mazes']} -> {d.cfg.n_mazes}"); return
+                viol(f"the configuration of {who} changed: applied_filters {o['applied']} -> {now}, n_mazes {o['n_mazes']} -> {d.cfg.n_mazes}"); return
+            if _cfg_rest(d.cfg) != o["cfg_rest"]:
+                viol(f"configuration fields other than applied_filters / n_mazes of {who} changed"); return
     if not inplace:
         if res is snap["obj"]:
             viol("the filter returned its input instead of a new dataset"); return
@@ -752,10 +768,31 @@ def _gen_op(rng, lens, grid_n, allow_custom=True):
     return {"kind": "custom", "fname": "startrow_le", "kwargs": [["x", rng.choice([0, 1, 2])]]}
 
 
+def _gen_custom(rng):
+    if rng.random() < 0.5:
+        return {"kind": "custom", "fname": "lenmod", "kwargs": [["k", rng.choice([1, 1, 2, 3])], ["r", rng.choice([0, 0, 1])]]}
+    return {"kind": "custom", "fname": "startrow_le", "kwargs": [["x", rng.choice([0, 1, 2, 3])]]}
+
+
+def _plant_history(rng, ops):
+    """custom_maze_filter [-> custom_maze_filter] -> in-place collect_generation_meta somewhere in the sequence (<= 5 ops kept):
+    the collection runs on a RESULT while the datasets it was derived from are still alive"""
+    kw = []
+    if rng.random() < 0.5: kw.append(["clear_in_mazes", rng.random() < 0.8])
+    if rng.random() < 0.3: kw.append(["inplace", True])
+    plant = [_gen_custom(rng)] + ([_gen_custom(rng)] if rng.random() < 0.3 else []) + \
+            [{"kind": "reg", "name": "collect_generation_meta", "args": [], "kwargs": kw}]
+    pre = ops[:rng.choice([0, 0, 1])]
+    post = ops[len(pre):][:max(0, 5 - len(pre) - len(plant))]
+    return pre + plant + post
+
+
 def _gen_case(rng, allow_custom=True):
     items, grid_n, mode, metamode = _gen_items(rng)
     lens = _lens_of(items)
     ops = [_gen_op(rng, lens, grid_n, allow_custom) for _ in range(rng.randint(1, 5))]
+    if allow_custom and rng.random() < 0.17:
+        ops = _plant_history(rng, ops)
     return {"kind": "seq", "cfg": {"name": "c08", "grid_n": grid_n, "seed": 42}, "items": items, "ops": ops, "mode": mode, "metamode": metamode}
 
 
@@ -778,7 +815,8 @@ def _pair_cases():
 
 
 def _regression_cases():
-    """the two repaired defects (keys custom-filter-record-without-args, collect-noop-returns-input), run on every check"""
+    """the three repaired defects (keys custom-filter-record-without-args, collect-noop-returns-input,
+    custom-filter-shares-mazes), run on every check"""
     base = next(_pair_cases())
     reg = lambda n, p=(), k=(): {"kind": "reg", "name": n, "args": list(p), "kwargs": [list(x) for x in k]}
     cust = lambda k, r: {"kind": "custom", "fname": "lenmod", "kwargs": [["k", k], ["r", r]]}
@@ -790,6 +828,10 @@ def _regression_cases():
         [reg("collect_generation_meta"), reg("remove_duplicates_fast"), reg("collect_generation_meta", (), [("inplace", False)]),
          reg("collect_generation_meta")],
         [reg("collect_generation_meta", (), [("inplace", False), ("clear_in_mazes", False)]), reg("collect_generation_meta", [True, False])],
+        # custom filter, then the documented in-place collection on the RESULT: the input's mazes must keep their generation_meta
+        [cust(1, 0), reg("collect_generation_meta")],
+        [cust(2, 0), cust(1, 0), reg("collect_generation_meta", (), [("clear_in_mazes", True)]), reg("collect_generation_meta", (), [("inplace", False)])],
+        [reg("truncate_count", [5]), cust(1, 0), reg("collect_generation_meta", [True, True]), reg("path_length", [3]), reg("collect_generation_meta")],
     ]
     for ops in seqs:
         yield dict(base, items=[dict(x) for x in base["items"]], ops=ops, mode="regression")
